@@ -404,7 +404,7 @@ class Obligation:
 
 
 class Event:
-    __slots__ = ("kind", "name", "recv", "args", "kwargs", "pc_len", "node", "result")
+    __slots__ = ("kind", "name", "recv", "args", "kwargs", "pc_len", "node", "result", "pre")
 
     def __init__(self, kind, name, recv, args, kwargs, pc_len, node, result=None):
         self.kind = kind
@@ -415,6 +415,7 @@ class Event:
         self.pc_len = pc_len
         self.node = node
         self.result = result
+        self.pre = {}  # opaque calls: content of the list arguments at the time of the call (index -> items)
 
     def __repr__(self):
         return "Event(%s %s)" % (self.kind, self.name)
@@ -1485,10 +1486,14 @@ class Engine:
             self.immutable_ids.add(res.t.get_id())
             self._keep.append(res)
         # an unknown callee may write into every modelled object it can reach through its arguments
-        for a in list(args) + list(kwargs.values()):
+        pre = {}
+        for i, a in enumerate(list(args) + list(kwargs.values())):
             if isinstance(a, Ref):
+                if self.heap[a.id].get("kind") in ("list", "bytearray"):
+                    pre[i] = self.heap[a.id].get("items")
                 self._havoc_cell(a)
         ev = self.event("call", str(name), recv, args, kwargs, node, res)
+        ev.pre = pre
         may_raise = self.contract.callee_may_raise(name)
         if may_raise and not self._assume_safety and (self.exc_stack or self.contract.has_xposts() or self.contract.track_raises):
             # an unknown callee may raise any exception: one alternative per exception class an enclosing handler
@@ -2457,10 +2462,17 @@ class Engine:
         # the element expression is re-evaluated later (at instantiation points) in the state of *now*
         cap_frame = Frame(self.frame.func, dict(env), self.frame.module)
         cap_heap = dict(self.heap)
+        cap_ver = self.ghost.get("heapver", 0)
+        cap_log = dict(getattr(self, "attr_log", {}) or {})
 
         def eval_at(j, assume_safe):
             cur_heap = self.heap
             self.heap = dict(cap_heap)
+            cur_ver, cur_log = self.ghost.get("heapver", 0), getattr(self, "attr_log", {})
+            # attribute reads of opaque objects are versioned: the element expression is evaluated in the state
+            # the comprehension ran in, not in the state of the (later) instantiation point
+            self.ghost["heapver"] = cap_ver
+            self.attr_log = dict(cap_log)
             self.frames.append(cap_frame)
             mark_id = self.next_id
             old_mode = self._assume_safety
@@ -2478,6 +2490,8 @@ class Engine:
                 self.loop_ctx = saved_loop_ctx
                 self.frames.pop()
                 self.heap = cur_heap
+                self.ghost["heapver"] = cur_ver
+                self.attr_log = cur_log
             return v
 
         # 1. probe at an arbitrary index: safety obligations / exceptional exits of the element expression
